@@ -33,13 +33,16 @@ def build_chain(spec, target, start, bounds_obj=None, widths=None):
     bounds = bounds_obj
     if bounds is None and spec.get("bounds") is not None:
         bounds = (np.array(spec["bounds"][0], dtype=float), np.array(spec["bounds"][1], dtype=float))
+    # documented order of the leading parameters: (posterior, start / starting_positions, ...)
+    lead = ((target, start), {}) if spec.get("arg_form") == "positional" else \
+        ((), {"posterior": target, ("starting_positions" if kind == "ensemble" else "start"): start})
     if kind in ("gibbs", "metropolis"):
         w = widths if widths is not None else np.array(spec["widths"], dtype=float)
-        c = C[kind](posterior=target, start=start, widths=w, temperature=T, display_progress=display)
+        c = C[kind](*lead[0], widths=w, temperature=T, display_progress=display, **lead[1])
     elif kind == "pca":
         w = widths if widths is not None else np.array(spec["widths"], dtype=float)
-        c = C[kind](posterior=target, start=start, widths=w, temperature=T, display_progress=display,
-                    bounds=bounds)
+        c = C[kind](*lead[0], widths=w, temperature=T, display_progress=display,
+                    bounds=bounds, **lead[1])
         if "dir_update_interval" in knobs:
             _set(c, "dir_update_interval", int(knobs["dir_update_interval"]))
             _set(c, "next_update", int(knobs["dir_update_interval"]))
@@ -48,16 +51,16 @@ def build_chain(spec, target, start, bounds_obj=None, widths=None):
         if im is not None:
             im = np.array(im, dtype=float) if not np.isscalar(im) else float(im)
         grad = None if knobs.get("finite_diff") else GradOf(target)
-        c = C[kind](posterior=target, start=start, grad=grad, epsilon=float(spec.get("epsilon", 0.1)),
-                    temperature=T, bounds=bounds, inverse_mass=im, display_progress=display)
+        c = C[kind](*lead[0], grad=grad, epsilon=float(spec.get("epsilon", 0.1)),
+                    temperature=T, bounds=bounds, inverse_mass=im, display_progress=display, **lead[1])
         _set(c, "steps", int(knobs.get("steps", 5)))
         if "es_chk_int" in knobs:
             _set(getattr(c, "ES", None), "chk_int", int(knobs["es_chk_int"]))
         if "max_attempts" in knobs:
             _set(c, "max_attempts", int(knobs["max_attempts"]))
     elif kind == "ensemble":
-        c = C[kind](posterior=target, starting_positions=start, alpha=float(knobs.get("alpha", 2.0)),
-                    bounds=bounds, display_progress=display)
+        c = C[kind](*lead[0], alpha=float(knobs.get("alpha", 2.0)),
+                    bounds=bounds, display_progress=display, **lead[1])
         if "max_attempts" in knobs:
             _set(c, "max_attempts", int(knobs["max_attempts"]))
     else:
